@@ -76,7 +76,14 @@ def run_campaign(prop, tier, v, wd, rng, fams=None, sample=None):
             if sample and fam == "malformed" and n == 3:
                 limit = sample
             if limit and len(scs) > limit:
-                scs = rng.sample(scs, limit)
+                # stratified: one scenario of every (phase, mutation class) pair, the rest drawn at random
+                seen, keep, rest = set(), [], []
+                for sc in scs:
+                    d0 = sc["devs"][0]
+                    k = (d0.get("phase", d0.get("tap")), d0.get("mut", {}).get("m"))
+                    (rest if k in seen else keep).append(sc)
+                    seen.add(k)
+                scs = keep + rng.sample(rest, max(0, min(len(rest), limit - len(keep))))
             for i, sc in enumerate(scs):
                 devs, taps = to_devs(sc)
                 # a dropped / forged optional value only shows when the hidden bit is 1: repeat
